@@ -573,6 +573,13 @@ func buildChild(c *common.Ctx) (string, string) {
 // ---- the run --------------------------------------------------------------------------------
 
 func run(c *common.Ctx) error {
+	// the children's private directories go into the run's scratch directory, which the
+	// check removes: a child that is killed cannot remove its own
+	if c.Dir != "" {
+		tmp := filepath.Join(c.Dir, "tmp")
+		os.MkdirAll(tmp, 0o755)
+		os.Setenv("TMPDIR", tmp)
+	}
 	repo := os.Getenv("VERIF_REPO")
 	if repo == "" {
 		repo = "/repo"
